@@ -98,6 +98,20 @@ def run(ctx):
                   ok_msg="depth >= limit => Remove",
                   bad_msg=f"`depth` is used in {detail} ({kind}): the verdict is not a lower-bound test leading to Remove, so a node kept at depth d can be "
                           f"treated differently once hoisting moved it to a smaller depth (sanitize is then not idempotent)")
+    # ---- deprecated replacements in both modes ---------------------------------------------------------------------------
+    ctx.rule("C15.replacements-mode", "apply_replacements (helpers inlined) consults the sanitizer mode only as present/absent: no path distinguishes strict "
+                                      "from compat, so <font>/<strike>/color are rewritten in both modes (compat is strict plus extras)")
+    fr = w.fn(CL + IMPL + "apply_replacements")
+    dexr = D.Dex(w.lookup, adt_discr=w.adt_discr, unroll=0, max_paths=400000,
+                 inline=lambda n: "{closure" in n or (n.startswith(CL + IMPL) and n[len(CL + IMPL):] not in ("apply_replacements", "clean_node", "node_action", "clean_element_attributes") and "::" not in n[len(CL + IMPL):]))
+    rps = dexr.paths(fr, [D.sym("self"), D.sym("node")])
+    ctx.floor("apply_replacements paths", len(rps), 20)
+    mode_atoms = sorted({D.show_atom(a) for p in rps for a, t in p.conds if "self.mode" in D.show_atom(a)})
+    ctx.floor("mode tests in apply_replacements", len(mode_atoms), 1)
+    bad = [a for a in mode_atoms if a not in ("self.mode is Some", "self.mode is None")]
+    ctx.check(not bad, "C15.replacements-mode", "C15.replacements-mode:mode-blind", w.where(fr),
+              bad_msg=f"apply_replacements branches on {bad}: the built-in replacements of deprecated elements/attributes are applied in one mode only "
+                      f"(e.g. compat-mode `Html::sanitize()` unwraps <font color=..> instead of rewriting it to <span data-mx-color=..>)")
     ctx.assumptions += ["idempotence itself (equality of serialized documents) is not decided; these are necessary conditions only"]
     ctx.samples += [{"replacement": "font -> span, color -> data-mx-color", "closure": "span allows data-mx-color; span is not deprecated"}]
 
